@@ -74,12 +74,32 @@ def header(cl, status='HTTP/1.1 200 OK', ctype='Content-Type: application/octet-
     if order == 2: lines = ex + lines; ex = []
     return ('\r\n'.join([status] + ex[:len(ex) // 2] + lines + ex[len(ex) // 2:]) + '\r\n\r\n').encode('latin-1')
 
-def announced_of(hdr):
-    """the announced length when the header states it unambiguously, else None"""
+def announced_kind(hdr):
+    """('num', n): the header states the length n unambiguously (decimal digits, optional blanks/tabs around them);
+       ('none', None): it unambiguously announces no numeric length (no Content-Length field at all, or its value is
+       not a decimal number: letters, separators, sign, empty); ('unknown', None): anything else (duplicates, other
+       spellings of the field name ...), left to the model/implementation comparison"""
     txt = hdr.decode('latin-1')
-    if txt.lower().count('content-length') != 1: return None
-    m = re.search(r'\r\nContent-Length: (\d+)\r\n', txt)
-    return int(m.group(1)) if m else None
+    c = txt.lower().count('content-length')
+    if c == 0: return ('none', None)
+    if c != 1: return ('unknown', None)
+    m = re.search(r'\r\nContent-Length: ([^\r\n]*)\r\n', txt)
+    if not m: return ('unknown', None)
+    val = m.group(1)
+    if re.fullmatch(r'[ \t]*\d+[ \t]*', val): return ('num', int(val.strip(' \t')))
+    return ('none', None)
+
+def announced_of(hdr):
+    k, n = announced_kind(hdr)
+    return n if k == 'num' else None
+
+def fold_clen(val, guard=1028096):
+    """what a digit loop that does not reject non-digits makes of the text (v = v*10 + (c - '0'), stop above guard)"""
+    v = 0
+    for ch in val.encode('latin-1'):
+        if v > guard: return None
+        v = v * 10 + ch - 48
+    return v
 
 def split_stream(stream):
     """(header incl. blank line, body) as an HTTP client would see it; header None when there is none"""
@@ -217,6 +237,30 @@ class C18(F.PropCheck):
         evs.append(('DISC', [], b''))
         return F.Case(cid, evs, tags)
 
+    def gen_nonnum(self, rng, cid):
+        """Content-Length values that are not decimal numbers: one non-digit at any position (':' folds to 10, letters,
+        separators, sign, blank/tab); body = an authentic image whose length is what a careless digit loop makes of the text,
+        or some other body"""
+        m = rng.choice([2, 3, 5, 6]); ub = rng.choice([0, 1]); tags = ['clen-nonnum', 'map%d' % m]
+        for _ in range(200):
+            digits = str(rng.choice([rng.randrange(1, 10), rng.randrange(10, 100), rng.randrange(100, 1000), rng.randrange(1000, 10000), rng.randrange(10000, 99999)]))
+            ch = rng.choice(':;,. \t+-abcxzAF_/%')
+            pos = rng.randrange(len(digits) + 1)
+            val = (digits[:pos] + ch + digits[pos + (1 if rng.random() < 0.5 else 0):]) if rng.random() < 0.85 else rng.choice(['abc', 'x', '0x1b90', '1e4', '7,056', '6:56', '1b90', '--', '+', '5 000'])
+            if announced_kind(('HTTP/1.1 200 OK\r\nContent-Length: %s\r\n\r\n' % val).encode('latin-1'))[0] != 'none': continue
+            f = fold_clen(val)
+            break
+        else: val, f = 'abc', fold_clen('abc')
+        if f is not None and SIGN + FOOT < f <= 40000 and rng.random() < 0.8:
+            img = make_image(rng, f); body = img; tags.append('body:authentic-folded')
+        else:
+            n = rng.randrange(529, 9000); img = make_image(rng, n); body = img; tags.append('body:other')
+        if rng.random() < 0.15: body = body + bytes(rng.getrandbits(8) for _ in range(rng.randrange(1, 3000)))
+        evs = [('MAP', [m], b''), ('USERBIN', [ub], b''), oracle_ev(img, 2 if rng.random() < 0.8 else 1), ('START', [], b'')]
+        for sg in self.segmentations(rng, header(val, order=rng.randrange(3)), body): evs.append(('SEG', [], sg))
+        if rng.random() < 0.8: evs.append(('DISC', [], b''))
+        return F.Case(cid, evs, tags)
+
     def gen_nohalt(self, rng, cid):
         """callbacks keep arriving after the restart / upgrade reboot was requested (system_restart() is asynchronous)"""
         m = rng.choice([2, 3, 5, 6]); ub = rng.choice([0, 1])
@@ -256,6 +300,7 @@ class C18(F.PropCheck):
             r = rng.random()
             if r < 0.04: cases.append(self.gen_stale(rng, '%sst%d' % (tier[0], i))); continue
             if r < 0.07: cases.append(self.gen_nohalt(rng, '%snh%d' % (tier[0], i))); continue
+            if r < 0.12: cases.append(self.gen_nonnum(rng, '%snn%d' % (tier[0], i))); continue
             m = rng.choice([5, 5, 5, 6, 2, 2, 3, 4, rng.choice([0, 1, 7, 8, 9])]); ub = rng.choice([0, 0, 1, 1, rng.choice([2, 255])])
             pre, hdr, body, tags, img = self.gen_response(rng, m, tier)
             evs = [('MAP', [m], b''), ('USERBIN', [ub], b'')] + pre
@@ -334,7 +379,14 @@ class C18(F.PropCheck):
         if base_line[0] != base:
             v.append('writes go to 0x%X but the inactive slot for map %d / running bin %d starts at 0x%X' % (base_line[0], m, ub, base)); return v
         hdr, body = split_stream(stream)
-        ann = announced_of(hdr) if hdr is not None and len(hdr) <= 699 else None
+        akind, ann = announced_kind(hdr) if hdr is not None and len(hdr) <= 699 else ('unknown', None)
+        if akind == 'none':
+            # "never beyond the announced length", "only when the download delivered exactly the announced length":
+            # without an announced numeric length there is nothing to download into the slot and nothing to boot
+            for (k, ints, _) in outs:
+                if k in ('ERASE', 'WRITE'): v.append('flash %s at 0x%X although the response announces no numeric length' % (k.lower(), ints[0])); break
+            if any(k == 'FLAG' and ints[0] == 1 for (k, ints, _) in outs): v.append('download started (FLAG START) although the response announces no numeric length')
+            if any(k == 'FLAG' and ints[0] == 2 for (k, ints, _) in outs): v.append('image marked for boot (FLAG FINISH) although the response announces no numeric length')
         bound = min(ann, lim) if ann is not None else lim
         rnd = (bound + 4095) // 4096 * 4096
         # containment
